@@ -5,3 +5,18 @@ cd "$(dirname "$0")"
 /venv/bin/python translator/extract.py --repo "${VERIF_REPO:-/repo}" || [ $? -eq 3 ]
 cd lean
 lake build dldriver DL 2>&1 | tail -5
+# the property theorems (each check builds its own again, which is then a no-op); a failure here is
+# reported by the check of the property concerned, not by the setup
+mods=$(/venv/bin/python - <<'PY'
+import sys
+sys.path.insert(0, "..")
+from harness import registry
+out = []
+for pid, reg in sorted(registry.PROPS.items()):
+    if reg["theorems"]:
+        out.append(f"DL.Props.{pid}")
+    out += reg.get("modules", [])
+print(" ".join(dict.fromkeys(out)))
+PY
+)
+lake build $mods 2>&1 | tail -3 || true
